@@ -31,13 +31,13 @@ def _worker(args):
         mod = importlib.import_module(modname)
         smt.STATS.__init__()
         res = mod.run_case(case, tier)
-        res.setdefault('case', str(case)[:200])
+        res['case'] = repr(case)
         res['stats'] = smt.STATS.as_dict()
         res['entered'] = instr.entered()
         res['wall_s'] = round(time.time() - t0, 2)
         return res
     except BaseException as e:  # noqa: a crash of the harness is inconclusive, never success
-        return {'case': str(case)[:200], 'error': f'{type(e).__name__}: {e}', 'trace': traceback.format_exc()[-1500:],
+        return {'case': repr(case), 'error': f'{type(e).__name__}: {e}', 'trace': traceback.format_exc()[-1500:],
                 'wall_s': round(time.time() - t0, 2)}
 
 
@@ -88,8 +88,20 @@ def load_known(prop):
 
 def run_replay(mod, spec, keep_path=None):
     """Run the replay of one counterexample against the plain library. Returns (reproduced, output)."""
-    script = mod.replay_script(spec)
     env = dict(os.environ)
+    if hasattr(mod, 'make_harness') and not hasattr(mod, 'replay_script'):
+        # generic replay: the same harness, concrete inputs, plain library (no import hook), real file system
+        env['PYTHONPATH'] = os.path.join(REPO, 'src') + os.pathsep + ROOT
+        env['PYTHONDONTWRITEBYTECODE'] = '1'
+        spec = dict(spec, module=mod.__name__)
+        try:
+            p = subprocess.run([os.path.join(ROOT, '.venv', 'bin', 'python'), '-m', 'sx.replay', json.dumps(spec, default=str)],
+                               env=env, capture_output=True, text=True, timeout=600, cwd=ROOT)
+        except subprocess.TimeoutExpired:
+            return None, 'replay timed out'
+        out = (p.stdout + p.stderr)[-3000:]
+        return (True if p.returncode == 3 else False if p.returncode == 0 else None), out
+    script = mod.replay_script(spec)
     env['PYTHONPATH'] = os.path.join(REPO, 'src') + os.pathsep + os.path.join(ROOT)
     env['PYTHONDONTWRITEBYTECODE'] = '1'
     env.pop('SX_HOOK', None)
@@ -192,7 +204,11 @@ def main(modname):
     os.makedirs(os.path.join(OUT, 'replays', prop), exist_ok=True)
 
     def handle(v, declared_known):
-        spec = mod.replay_spec(v)
+        if hasattr(mod, 'replay_spec'):
+            spec = mod.replay_spec(v)
+        else:
+            spec = {'case': v.get('case'), 'label': v['label'].split('/known:')[0], 'inputs': v.get('model'),
+                    'info': v.get('info'), 'tier': a.tier}
         key = hashlib.sha1(json.dumps(spec, sort_keys=True, default=str).encode()).hexdigest()[:12]
         if key in seen_specs:
             return
